@@ -339,6 +339,62 @@ pub fn clone_arr<N: ArrayLength, A: Elem>(k: Option<u64>) -> Result<u64, String>
     })?;
     Ok(n)
 }
+/// `dst.clone_from(&src)` with the k-th `T::clone` panicking: source intact, every element of the destination - old ones,
+/// new ones, whatever mixture it holds after the unwinding - dropped exactly once
+pub fn clone_from_arr<N: ArrayLength, A: Elem>(boxed: bool, k: Option<u64>) -> Result<u64, String> {
+    let src = mk::<A, N>();
+    let before = ids_of(&src);
+    let c0 = ledger::clone_calls();
+    let n;
+    if boxed {
+        let src = Box::new(src);
+        let mut dst = Box::new(mk::<A, N>());
+        ledger::set_clone_bomb(k.map(|k| k + c0));
+        let r = catch(AssertUnwindSafe(|| dst.clone_from(&src)));
+        ledger::set_clone_bomb(None);
+        n = ledger::clone_calls() - c0;
+        judge(k, r, None, |_| {
+            intact("the source of clone_from", &src[..], &before)?;
+            drop(dst);
+            drop(src);
+            Ok(())
+        })?;
+    } else {
+        let mut dst = mk::<A, N>();
+        ledger::set_clone_bomb(k.map(|k| k + c0));
+        let r = catch(AssertUnwindSafe(|| dst.clone_from(&src)));
+        ledger::set_clone_bomb(None);
+        n = ledger::clone_calls() - c0;
+        judge(k, r, None, |_| {
+            intact("the source of clone_from", &src, &before)?;
+            drop(dst);
+            drop(src);
+            Ok(())
+        })?;
+    }
+    Ok(n)
+}
+/// `dst.clone_from(&it)` on by-value iterators, destination part-consumed (front 1, back 1 where possible)
+pub fn clone_from_iter<N: ArrayLength, A: Elem>(pre: bool, f: usize, b: usize, k: Option<u64>) -> Result<u64, String> {
+    let it = iter_at::<A, N>(pre, f, b);
+    let before = ids_of(it.as_slice());
+    let mut dst = iter_at::<A, N>(false, N::USIZE.min(1), N::USIZE.saturating_sub(1).min(1));
+    let c0 = ledger::clone_calls();
+    ledger::set_clone_bomb(k.map(|k| k + c0));
+    let r = catch(AssertUnwindSafe(|| dst.clone_from(&it)));
+    ledger::set_clone_bomb(None);
+    let n = ledger::clone_calls() - c0;
+    judge(k, r, None, |v| {
+        intact("the source iterator of clone_from", it.as_slice(), &before)?;
+        if v.is_some() && dst.len() != before.len() {
+            return Err(format!("after clone_from the destination has {} elements, the source {}", dst.len(), before.len()));
+        }
+        drop(dst);
+        drop(it);
+        Ok(())
+    })?;
+    Ok(n)
+}
 pub fn clone_box<N: ArrayLength, A: Elem>(k: Option<u64>) -> Result<u64, String> {
     let src = Box::new(mk::<A, N>());
     let before = ids_of(&src);
@@ -673,6 +729,16 @@ pub fn run(ctx: &mut Ctx) {
         d!(ctx, N, "map-owned", "A=u32,U=Tr4", |k| map_owned::<N, u32, Tr<0>>(k));
         d!(ctx, N, "map-owned", "A=Tr24,U=Tr8", |k| map_owned::<N, Tr<5>, Tr<1>>(k));
         d!(ctx, N, "map-owned", "A=Tr128,U=Tr128", |k| map_owned::<N, Tr<31>, Tr<31>>(k));
+        // unusual representations: over-aligned drop-tracked (size = align = 32), 3-byte plain
+        d!(ctx, N, "map-owned", "A=TrA32,U=TrA32", |k| map_owned::<N, TrA, TrA>(k));
+        d!(ctx, N, "map-owned", "A=TrA32,U=b3", |k| map_owned::<N, TrA, B3>(k));
+        d!(ctx, N, "map-box", "A=b3,U=TrA32", |k| map_box::<N, B3, TrA>(k));
+        d!(ctx, N, "map-box", "A=TrA32,U=Tr4", |k| map_box::<N, TrA, Tr<0>>(k));
+        d!(ctx, N, "generate-box", "U=TrA32", |k| gen_box::<N, TrA>(k));
+        d!(ctx, N, "generate-owned", "U=TrA32", |k| gen_owned::<N, TrA>(k));
+        d!(ctx, N, "clone-array", "A=TrA32", |k| clone_arr::<N, TrA>(k));
+        d!(ctx, N, "clone-box", "A=TrA32", |k| clone_box::<N, TrA>(k));
+        d!(ctx, N, "fold-owned", "A=TrA32", |k| fold_owned::<N, TrA>(k));
         d!(ctx, N, "map-ref", "A=Tr4,U=Tr4", |k| map_ref::<N, Tr<0>, Tr<0>>(k));
         d!(ctx, N, "map-ref", "A=u32,U=Tr4", |k| map_ref::<N, u32, Tr<0>>(k));
         d!(ctx, N, "map-ref", "A=TrZ,U=TrZ", |k| map_ref::<N, TrZ, TrZ>(k));
@@ -701,6 +767,8 @@ pub fn run(ctx: &mut Ctx) {
                 d!(ctx, N, $label, "A=Tr24,B=Tr8,U=TrZ", |k| $fname::<N, Tr<5>, Tr<1>, TrZ>(k));
                 d!(ctx, N, $label, "A=Nd,B=Nd,U=Tr4", |k| $fname::<N, Nd, Nd, Tr<0>>(k));
                 d!(ctx, N, $label, "A=Tr4,B=Nd,U=Nd", |k| $fname::<N, Tr<0>, Nd, Nd>(k));
+                d!(ctx, N, $label, "A=TrA32,B=b3,U=TrA32", |k| $fname::<N, TrA, B3, TrA>(k));
+                d!(ctx, N, $label, "A=b3,B=TrA32,U=b3", |k| $fname::<N, B3, TrA, B3>(k));
             };
         }
         zips!(zip_oo, "zip-owned-owned");
@@ -722,6 +790,10 @@ pub fn run(ctx: &mut Ctx) {
         d!(ctx, N, "map-owned", "A=Nd,U=Tr4", |k| map_owned::<N, Nd, Tr<0>>(k));
         d!(ctx, N, "default-owned", "U=Nd", |k| default_owned::<N, Nd>(k));
         d!(ctx, N, "clone-box", "A=Tr4", |k| clone_box::<N, Tr<0>>(k));
+        d!(ctx, N, "clone_from-array", "A=Tr4", |k| clone_from_arr::<N, Tr<0>>(false, k));
+        d!(ctx, N, "clone_from-array", "A=TrZ", |k| clone_from_arr::<N, TrZ>(false, k));
+        d!(ctx, N, "clone_from-array", "A=Nd", |k| clone_from_arr::<N, Nd>(false, k));
+        d!(ctx, N, "clone_from-box", "A=Tr4", |k| clone_from_arr::<N, Tr<0>>(true, k));
         d!(ctx, N, "clone-box", "A=TrZ", |k| clone_box::<N, TrZ>(k));
         // collecting from a panicking source
         for entry in 0u8..4 {
@@ -810,6 +882,8 @@ pub fn run(ctx: &mut Ctx) {
                     let ne = N::USIZE - f - b > 0;
                     drive(ctx, &format!("C04;iter-clone;{pos};A=Tr4"), ne, &|k| clone_iter::<N, Tr<0>>(pre, f, b, k));
                     drive(ctx, &format!("C04;iter-clone;{pos};A=TrZ"), ne, &|k| clone_iter::<N, TrZ>(pre, f, b, k));
+                    drive(ctx, &format!("C04;iter-clone_from;{pos};A=Tr4"), ne, &|k| clone_from_iter::<N, Tr<0>>(pre, f, b, k));
+                    drive(ctx, &format!("C04;iter-clone_from;{pos};A=TrZ"), ne, &|k| clone_from_iter::<N, TrZ>(pre, f, b, k));
                     drive(ctx, &format!("C04;iter-clone;{pos};A=Tr24"), ne, &|k| clone_iter::<N, Tr<5>>(pre, f, b, k));
                     for which in 0u8..5 {
                         let wn = ["fold", "rfold", "for_each", "map-collect", "rev-map-collect"][which as usize];
